@@ -184,12 +184,30 @@ Theorem T18h_labels_irrelevant_TZN : forall v scale m eps f, v <> VG -> injectiv
 Proof. exact labels_irrelevant_TZN. Qed.
 Print Assumptions T18h_labels_irrelevant_TZN.
 
-Theorem T18h_labels_irrelevant_G_partial : forall scale m eps f,
+(* all four variants, unconditionally, for the source as it is on this run (GammaProfile compares the label
+   with outside_good_key; if it compared with the position again this theorem would no longer check) *)
+Theorem T18h_labels_irrelevant : forall v scale m eps f, injective_on f (keys m) ->
+  w_table gp_og_test_by_key (code_d v) scale (relabel f m) eps
+  = relabel_tab f (w_table gp_og_test_by_key (code_d v) scale m eps).
+Proof. exact labels_irrelevant. Qed.
+Print Assumptions T18h_labels_irrelevant.
+
+(* non-vacuity: labels 1,2,3 (outside good 2) relabelled 11,12,13 -- the former counterexample *)
+Example T18h_example :
+  injective_on (Z.add 10) (keys confusion_model) /\
+  w_table gp_og_test_by_key gp_derivative None (relabel (Z.add 10) confusion_model) [0; 0; 0]
+  = relabel_tab (Z.add 10) (w_table gp_og_test_by_key gp_derivative None confusion_model [0; 0; 0]).
+Proof.
+  assert (H : injective_on (Z.add 10) (keys confusion_model)) by (intros a b _ _ E; apply (Z.add_reg_l 10); exact E).
+  split; [exact H | exact (labels_irrelevant VG None confusion_model [0; 0; 0] (Z.add 10) H)].
+Qed.
+
+Theorem T18h_labels_irrelevant_G_conditional : forall scale m eps f,
   gp_og_test_by_key = true -> injective_on f (keys m) ->
   w_table gp_og_test_by_key gp_derivative scale (relabel f m) eps
   = relabel_tab f (w_table gp_og_test_by_key gp_derivative scale m eps).
 Proof. exact labels_irrelevant_G. Qed.
-Print Assumptions T18h_labels_irrelevant_G_partial.
+Print Assumptions T18h_labels_irrelevant_G_conditional.
 
 Theorem T18h_consumption_table : forall opt scale m eps lam chosen f,
   injective_on f (keys m) -> (forall k, In k chosen -> In k (keys m)) ->
@@ -198,9 +216,10 @@ Theorem T18h_consumption_table : forall opt scale m eps lam chosen f,
 Proof. exact consumption_table_relabel. Qed.
 Print Assumptions T18h_consumption_table.
 
-(* As long as GammaProfile compares the label with the *position* of the outside good, labels matter:
+(* Whenever GammaProfile compares the label with the *position* of the outside good, labels matter:
    labels 1,2,3 with the outside good labelled 2 (position 1) give alternative 1 the marginal utility
-   +inf at zero; relabelled 11,12,13 they do not.  (Known finding; vacuous once the source is repaired.) *)
+   +inf at zero; relabelled 11,12,13 they do not.  (The defect repaired by /repo 51eacb0: the hypothesis is
+   false for the current source; kept so that the witness stays stated if the repair is reverted.) *)
 Theorem T18h_label_position_confusion_refuted : gp_og_test_by_key = false ->
   injective_on (Z.add 10) (keys confusion_model) /\ NoDup (keys confusion_model) /\
   w_table gp_og_test_by_key gp_derivative None (relabel (Z.add 10) confusion_model) [0; 0; 0]
